@@ -297,6 +297,12 @@ func c06Canonical(c *core.Ctx) {
 // and the arguments of method calls on / writer-style calls into such a local
 // (buf.WriteString(x), fmt.Fprintf(&buf, ...)). Conditions are not followed (data flow only).
 func c06ValueClosure(g *flow.Func, roots []ast.Expr) []ast.Expr {
+	return c06ValueClosureStop(g, roots, nil)
+}
+
+// c06ValueClosureStop is c06ValueClosure with a barrier: the sub-expressions of a node for
+// which stop returns true are not followed (the node itself stays part of its expression).
+func c06ValueClosureStop(g *flow.Func, roots []ast.Expr, stop func(n ast.Node) bool) []ast.Expr {
 	type feed struct {
 		obj types.Object
 		e   ast.Expr
@@ -393,6 +399,9 @@ func c06ValueClosure(g *flow.Func, roots []ast.Expr) []ast.Expr {
 		out = append(out, e)
 		ast.Inspect(e, func(x ast.Node) bool {
 			if _, isLit := x.(*ast.FuncLit); isLit {
+				return false
+			}
+			if x != nil && stop != nil && stop(x) {
 				return false
 			}
 			id, ok := x.(*ast.Ident)
